@@ -190,8 +190,30 @@ CLAIMED.update({
     },
 })
 
+CLAIMED.update({
+    "C02": {
+        "text": "Model/Spec.v is a reference semantics of the rule language written from the documentation: it works from the YAML "
+                "of the rule and the document value (never from the engine's expression tree) and returns true / false / missing. "
+                "Proved: entry_refines (every scalar entry -- string / numeric pattern, number, boolean, null under a plain, not(), "
+                "int(), flt() or str() key -- gives exactly the documented result on every document), mapping_refines_simple "
+                "(a mapping is the first-non-true conjunction of its entries, nested blocks of any depth), identifier_refines_simple "
+                "(sequences of mappings are disjunctions; what all()/of() count), cond_refines (every condition the parser can "
+                "produce: and/or/not/all()/of()/casts), loaded_condition_shape, and rule_refines_simple (every loadable rule of the "
+                "fragment has, on every document, the reference's verdict; matches = true only; missing is never true). The "
+                "unrestricted statements are refuted by witnesses (D27, D30, negative thresholds). On the crate structure-first random "
+                "rules x 8 documents are compared with the extracted reference; a difference is accepted only when the engine "
+                "model reproduces the crate and a listed classifier (D10/D11, D24, D26, D27, D28, D30) accepts the rule.",
+        "note": TB + "PARTIAL proof: the refinement theorems cover identifier blocks built from scalar entries, nested blocks and "
+                "sequences of mappings; entries whose value is a LIST are covered by C07/C08's theorems for string members and by "
+                "the correspondence against the reference for the other member kinds. Array-valued fields are in the reference "
+                "and in the correspondence, not in the theorems' fragment beyond what find/solve give.",
+        "technique": "Coq proof of refinement (engine model vs documented reference semantics) by induction over YAML depth and "
+                     "condition trees + differential crate vs extracted reference with classifier-gated known findings",
+    },
+})
+
 DEFAULT_REASON = ("not claimed yet in this commit: the Coq model covers it (DESIGN.md section 7) but its property theorems "
                   "and correspondence check are still being built; nothing is inapplicable in principle")
-NOT_YET = {"C02": "not claimed in this commit: the reference semantics of whole rules (Spec) and its refinement theorem are not finished; the parts of C02 that are finished are claimed as C05 (condition grammar), C06 (connectives), C07 (string predicates), C08 (list quantifiers), C09 (numeric predicates and casts), C10 (paths and nested blocks) -- each against an independent reference; machine-checked proof applies to C02 in principle (DESIGN.md 7-C02)"}
+NOT_YET = {}
 NOTES = ("All checks share one Coq development (/verif/coq) and one correspondence pipeline; see DESIGN.md. "
          "KNOWN_FINDINGS.txt lists repaired defects (fix: commits in /repo) and known findings.")
